@@ -146,6 +146,13 @@ def run(rep):
                          "attribute '%s' of the next() result is not defined by BaseResponse (defined by %s); an "
                          "HTTPException (404/405/raised error) flowing here raises AttributeError => 500; no hasattr/"
                          "isinstance guard dominates the access" % (attr, ', '.join(where)), mod, a)
+        # a getattr(..., None) default must not be dereferenced (AttributeError on the very objects the default is for)
+        for n in walk_body(fi.node):
+            if isinstance(n, ast.Attribute) and isinstance(n.value, ast.Call) and call_name(n.value) == 'getattr' and len(n.value.args) == 3 \
+                    and isinstance(n.value.args[2], ast.Constant) and n.value.args[2].value is None:
+                bad += 1
+                rep.fail('R15.a', fkey(fi, n), "the None default of %s is dereferenced (.%s): for a response/exception without that attribute this "
+                         "raises AttributeError inside the middleware and replaces the response by a 500" % (short(n.value), n.attr), mod, n)
         if not bad:
             rep.ok('R15.a', fkey(fi), '%d attribute accesses on next() results %s: all BaseResponse-defined or guarded'
                    % (len(accesses), sorted(set(a.attr for a in accesses))), mod, fi.node)
@@ -250,7 +257,17 @@ def run(rep):
               'the replacement body is not gzip_bytes of the original data', gz.mod, src[0] if src else body_st)
     # the body is replaced only if the client accepts gzip and no encoding is present yet
     cs = conds(gz, body_st)
-    acc = lambda t: 'accept_encodings' in norm(t) and "'gzip'" in norm(t)
+
+    def acc(t):
+        """a *quality* test of gzip in Accept-Encoding: accept_encodings['gzip'] / .quality('gzip') (q=0 means refused);
+        plain membership ('gzip' in accept_encodings) is true for 'gzip;q=0' and is not accepted here"""
+        for n in ast.walk(t):
+            if isinstance(n, ast.Subscript) and 'accept_encodings' in norm(n.value) and isinstance(n.slice, ast.Constant) and n.slice.value == 'gzip':
+                return True
+            if isinstance(n, ast.Call) and isinstance(n.func, ast.Attribute) and n.func.attr in ('quality', 'best_match', 'find') and \
+                    'accept_encodings' in norm(n.func.value) and "'gzip'" in norm(n):
+                return True
+        return False
     ok = any(acc(t) for t, p in cs)
     neg_ok = False
     for t, p in cs:
